@@ -31,6 +31,14 @@ def gen_mode(r):
     return r.below(512) & ~0o022  # never group/other writable: only the owner decides
 
 
+DANGLING_KINDS = ["nothing", "loop", "notdir", "toolong", "linktolong"]
+
+
+def dangling_op(r):
+    """a path that cannot be resolved at all (symlink to nothing / symlink loop / through a regular file / over-long name)"""
+    return f"ex.dangling kind={r.pick(DANGLING_KINDS)}"
+
+
 def gen_perm(r, n, exhaustive=False):
     """exhaustive=True: all {root,other} x {root,other} x 512 modes x {direct,symlink} = 4096 ops
     (n is ignored); else n seeded samples biased to the bits 0o020 / 0o002 / x bits."""
@@ -46,8 +54,8 @@ def gen_perm(r, n, exhaustive=False):
             owner = 0 if r.chance(0.7) else 1234
             group = 0 if r.chance(0.5) else 4321
             ops.append(perm_op(owner, group, gen_mode(r), r.below(2)))
-            if r.chance(0.03):
-                ops.append("ex.dangling")
+            if r.chance(0.04):
+                ops.append(dangling_op(r))
     ops.append("ex.count")
     return ops
 
@@ -78,7 +86,7 @@ def gen_perm_twice(r, n):
 def gen_cfg(r, n, exhaustive=False):
     """configuration-file rule: the same test on the config file iff it declares a cmd sensor / fan"""
     ops = ["#case ex cfg"]
-    kinds = ["none", "sensor", "fan", "both"]
+    kinds = ["none", "sensor", "fan", "both", "sensor-unused", "sensor-second", "fan-second"]
     if exhaustive:
         for kind in kinds:
             for owner in OWNERS:
@@ -134,6 +142,9 @@ def gen_exec(r, n):
     body.append(f"ex.run beh=grandchild timeout_ms={t} hold_ms={t + r.range(800, 1500)}")   # release after the deadline
     body.append(f"ex.run beh=grandchild timeout_ms={r.pick([1000, 2000])} hold_ms={r.range(400, 900)}")  # before it, past WaitDelay
     body.append(f"ex.run beh=grandchild timeout_ms={r.pick(SHORT_TIMEOUTS)} hold_ms={r.range(20, 110)}")  # quick release
+    for kind in DANGLING_KINDS:      # "cannot be started at all": the path does not even resolve
+        body.append(f"ex.dangling kind={kind}")
+    body.append("ex.statrace checks=3000 runs=30")   # "vanished / swapped between check and start"
     body.append("ex.run beh=exit0 timeout_ms=0")
     body.append("ex.run beh=notexec timeout_ms=0")
     for kind in USER_KINDS:
